@@ -424,9 +424,38 @@ func (x *Exec) Apply(op Op) Res {
 		return res
 	}
 	for _, o := range x.Oracles {
-		o.After(x, &op, &res)
+		x.guardedAfter(o, &op, &res)
 	}
 	return res
+}
+
+// guardedAfter runs one oracle's After. A query or probe of the oracle can hit a panic of the
+// module itself: in an asset whose recorded total went negative (over-withdrawal clause of the
+// listed finding F-C04a) token amounts computed from shares are negative and sdk.NewCoin panics,
+// also inside gRPC queries. That consequence is counted under the finding and the oracle skips
+// the step; any other panic is passed on unchanged.
+func (x *Exec) guardedAfter(o Oracle, op *Op, res *Res) {
+	defer func() {
+		r := recover()
+		if r == nil {
+			return
+		}
+		if _, ok := r.(violationPanic); ok {
+			panic(r)
+		}
+		msg := fmt.Sprintf("%v", r)
+		if strings.Contains(msg, "negative coin amount") || strings.Contains(msg, "negative decimal coin amount") {
+			for _, dn := range x.Post().AssetOrder {
+				if x.PrecisionCollapsed(dn) {
+					x.KnownFinding("F-C04a")
+					x.Label("module-panic-in-oracle-probe:negative-amount-in-collapsed-asset")
+					return
+				}
+			}
+		}
+		panic(r)
+	}()
+	o.After(x, op, res)
 }
 
 func (x *Exec) End() {
